@@ -1,10 +1,16 @@
 package props
 
 import (
+	"encoding/json"
 	"errors"
 	"fmt"
+	"net/url"
 	"strings"
+	"time"
 
+	"github.com/ja7ad/otp"
+
+	"verifh/gen"
 	"verifh/ref"
 )
 
@@ -49,4 +55,135 @@ func leakCheck(c *Ctx, op string, err error, secretText string, key []byte, acce
 			}
 		}
 	}
+}
+
+type genFailCase struct {
+	Op     string `json:"op"`
+	KeyHex string `json:"key_hex"`
+	Secret string `json:"secret"`
+	Digits uint8  `json:"digits"`
+	Algo   uint8  `json:"algo"`
+	URL    string `json:"url,omitempty"`
+}
+
+func judgeGenFail(c *Ctx, k genFailCase) {
+	key := unhex(k.KeyHex)
+	var err error
+	pan := monCatch(func() {
+		switch k.Op {
+		case "GenerateHOTP":
+			_, err = otp.GenerateHOTP(k.Secret, 5, &otp.Param{Digits: otp.Digits(k.Digits), Algorithm: otp.Algorithm(k.Algo)})
+		case "GenerateTOTP":
+			_, err = otp.GenerateTOTP(k.Secret, time.Unix(1700000000, 0), &otp.Param{Digits: otp.Digits(k.Digits), Algorithm: otp.Algorithm(k.Algo), Period: 30})
+		case "GenerateOCRA":
+			_, err = otp.GenerateOCRA(k.Secret, otp.SuiteConfig{Raw: "r", Hash: otp.Algorithm(k.Algo), Digits: int(k.Digits), IncludeCounter: true}, otp.OCRAInput{Counter: make([]byte, 7)})
+		case "DecodeSecret":
+			_, err = otp.DecodeSecret(k.Secret)
+		case "ParseOTPAuthURL":
+			u, e := url.Parse(k.URL)
+			if e != nil {
+				return
+			}
+			_, err = otp.ParseOTPAuthURL(u)
+		case "GenerateTOTPURL":
+			_, err = otp.GenerateTOTPURL(otp.URLParam{Issuer: "", AccountName: "a", Secret: k.Secret})
+		case "GenerateHOTPURL":
+			_, err = otp.GenerateHOTPURL(otp.URLParam{Issuer: "i", AccountName: "", Secret: k.Secret})
+		}
+	})
+	c.R.Eval(1)
+	if pan != nil {
+		return // C10's business
+	}
+	if err != nil {
+		c.R.Count("failing_calls_of_other_operations", 1)
+	}
+	leakCheck(c, k.Op, err, k.Secret, key, nil, "genfail", k)
+}
+
+func init() {
+	register(&Prop{
+		ID: "C13",
+		Rule: "every (ok, err) pair of ValidateHOTP / ValidateTOTP / ValidateOCRA over reduced C03, C04 and C06 workloads (accepting and rejecting cases; failure causes wrong code, wrong length, undecodable secret, unsupported hash/digits, refused skew, unusable suite, inadmissible input) must be (true,nil) or (false,error); every error text (all Unwrap levels) of those and of failing Generate*/DecodeSecret/ParseOTPAuthURL/Generate*URL calls is scanned for the secret (as supplied, canonical, lower-case, raw bytes, hex; keys >= 10 bytes) and for any code of the acceptance window (>= 6 digits); " +
+			"distinct_nontrivial counts distinct validation cases whose (ok, err) pair was judged plus distinct error texts scanned",
+		Run: func(c *Ctx) {
+			var hs []vhotpCase
+			c03Cases(c, func(k vhotpCase) { hs = append(hs, k) })
+			parallelJudge(c, hs, judgeVHOTP)
+			var ts []vtotpCase
+			c04Cases(c, func(k vtotpCase) { ts = append(ts, k) })
+			ts = append(ts, refusedSkewCases(c, []uint64{11, 100, 10000})...)
+			parallelJudge(c, ts, judgeVTOTP)
+			var os []ocraVCase
+			c06Cases(c, func(k ocraVCase) { os = append(os, k) })
+			parallelJudge(c, os, judgeOCRAV)
+			// explicit failure-cause sweep for HOTP/TOTP validation
+			rng := c.RNG.Fork(13)
+			var fh []vhotpCase
+			var ft []vtotpCase
+			for i := 0; i < c.N(300, 5000); i++ {
+				key := rng.Bytes(10 + rng.Intn(40))
+				enc := ref.Base32EncodeNoPad(key)
+				d := 6 + rng.Intn(5)
+				good := ref.HOTP(key, 9, d, 0)
+				causes := []struct {
+					secret string
+					sub    string
+					d, a   int
+					skew   uint64
+					note   string
+				}{
+					{enc, good, d, 0, 1, "accepting"},
+					{enc, ref.HOTP(key, 500, d, 0), d, 0, 1, "wrong code"},
+					{enc, good[:d-1], d, 0, 1, "wrong length"},
+					{enc[:len(enc)-1] + "!", good, d, 0, 1, "undecodable secret"},
+					{enc + "=A", good, d, 0, 1, "undecodable secret"},
+					{enc, good, d, 3 + rng.Intn(250), 1, "unsupported hash"},
+					{enc, good, 11 + rng.Intn(200), 0, 1, "unsupported digits"},
+					{enc, "", 0, 0, 1, "unsupported digits 0"},
+					{enc, good, d, 0, 11 + uint64(rng.Intn(100)), "refused skew"},
+				}
+				for _, cs := range causes {
+					fh = append(fh, vhotpCase{KeyHex: hexs(key), Secret: cs.secret, Counter: 9, Skew: cs.skew, Digits: uint8(cs.d), Algo: uint8(cs.a), Submitted: hexs([]byte(cs.sub)), Note: cs.note})
+					tsub := cs.sub
+					if cs.note == "accepting" {
+						tsub = ref.TOTP(key, 1700000000, 30, d, 0)
+					}
+					ft = append(ft, vtotpCase{KeyHex: hexs(key), Secret: cs.secret, At: gen.InstantSpec{Unix: 1700000000}, Period: 30, Skew: cs.skew, Digits: uint8(cs.d), Algo: uint8(cs.a), Submitted: hexs([]byte(tsub)), Note: cs.note})
+				}
+			}
+			parallelJudge(c, fh, judgeVHOTP)
+			parallelJudge(c, ft, judgeVTOTP)
+			// failing calls of the other operations
+			var gf []genFailCase
+			for i := 0; i < c.N(300, 5000); i++ {
+				key := rng.Bytes(10 + rng.Intn(40))
+				enc := ref.Base32EncodeNoPad(key)
+				badSecret := enc[:3] + "1" + enc[4:]
+				for _, op := range []string{"GenerateHOTP", "GenerateTOTP", "GenerateOCRA", "DecodeSecret"} {
+					gf = append(gf, genFailCase{Op: op, KeyHex: hexs(key), Secret: badSecret, Digits: 6, Algo: 0})
+					gf = append(gf, genFailCase{Op: op, KeyHex: hexs(key), Secret: enc, Digits: uint8(rng.Intn(256)), Algo: uint8(rng.Intn(256))})
+				}
+				gf = append(gf, genFailCase{Op: "GenerateTOTPURL", KeyHex: hexs(key), Secret: enc}, genFailCase{Op: "GenerateHOTPURL", KeyHex: hexs(key), Secret: enc})
+				for _, q := range []string{"digits=x", "period=-1", "algorithm=MD5", "digits=999"} {
+					gf = append(gf, genFailCase{Op: "ParseOTPAuthURL", KeyHex: hexs(key), Secret: enc, URL: "otpauth://totp/I:a?secret=" + enc + "&" + q})
+				}
+				gf = append(gf, genFailCase{Op: "ParseOTPAuthURL", KeyHex: hexs(key), Secret: enc, URL: "otpauth://xotp/I:a?secret=" + enc}, genFailCase{Op: "ParseOTPAuthURL", KeyHex: hexs(key), Secret: enc, URL: "otpauth://totp/nolabel?secret=" + enc}, genFailCase{Op: "ParseOTPAuthURL", KeyHex: hexs(key), Secret: enc, URL: "https://totp/I:a?secret=" + enc})
+			}
+			parallelJudge(c, gf, judgeGenFail)
+		},
+		Replay: func(c *Ctx, kind string, raw json.RawMessage) error {
+			switch kind {
+			case "vhotp":
+				return replayAs(raw, func(k vhotpCase) { judgeVHOTP(c, k) })
+			case "vtotp":
+				return replayAs(raw, func(k vtotpCase) { judgeVTOTP(c, k) })
+			case "ocrav":
+				return replayAs(raw, func(k ocraVCase) { judgeOCRAV(c, k) })
+			case "genfail":
+				return replayAs(raw, func(k genFailCase) { judgeGenFail(c, k) })
+			}
+			return fmt.Errorf("unknown kind %q", kind)
+		},
+	})
 }
